@@ -152,7 +152,7 @@ def td_specs(draw, tier):
 
     return {"crystal": draw(crystal_specs(max_unit=4, kinds=("hall", "proto", "centred"), masses=True)), "key": draw(keys),
             "N": draw(st.lists(st.integers(1, 3), min_size=3, max_size=3)), "fmin": draw(st.sampled_from([0.05, 0.5])),
-            "fmax": draw(st.sampled_from([None, None, 6.0])), "direction": draw(st.lists(st.floats(-1, 1, allow_nan=False), min_size=3, max_size=3).filter(lambda d: sum(x * x for x in d) > 1e-2))}
+            "fmax": draw(st.sampled_from([None, None, 6.0])), "tlayout": draw(st.sampled_from(["floats", "ints", "int_array", "strided", "tuple"])), "direction": draw(st.lists(st.floats(-1, 1, allow_nan=False), min_size=3, max_size=3).filter(lambda d: sum(x * x for x in d) > 1e-2))}
 
 
 def run_thermal(spec):
@@ -174,10 +174,15 @@ def run_thermal(spec):
     Ts = [0.0, 50.0, 300.0, 1000.0]
     fmin, fmax = spec["fmin"], spec["fmax"]
     ph.run_mesh(N, is_mesh_symmetry=False, with_eigenvectors=True, is_gamma_center=True)
-    ph.run_thermal_displacement_matrices(temperatures=Ts, freq_min=fmin, freq_max=fmax)
+    # the same whole-number temperatures handed over as floats, Python ints, an integer array, a strided view, a tuple
+    lay = spec.get("tlayout", "floats")
+    from vlib.case import present
+
+    Tin = {"floats": Ts, "ints": [int(t) for t in Ts], "int_array": np.array(Ts, dtype="int64"), "strided": present(Ts, "strided"), "tuple": tuple(Ts)}[lay]
+    ph.run_thermal_displacement_matrices(temperatures=Tin, freq_min=fmin, freq_max=fmax)
     tdd = ph.get_thermal_displacement_matrices_dict()
     tdm = tdd["thermal_displacement_matrices"]
-    ph.run_thermal_displacements(temperatures=Ts, freq_min=fmin, freq_max=fmax)
+    ph.run_thermal_displacements(temperatures=Tin, freq_min=fmin, freq_max=fmax)
     td = ph.get_thermal_displacements_dict()["thermal_displacements"]
     md = ph.get_mesh_dict()
     f, ev, m = md["frequencies"], md["eigenvectors"], ph.primitive.masses
@@ -239,7 +244,7 @@ def run_thermal(spec):
             if e5 > 1e-8:
                 return Out(ok=False, msg="thermal displacement matrices on the commensurate mesh differ from the diagonal blocks of the supercell "
                                          "canonical covariance: %.3e" % e5)
-    return Out(ok=True, nontrivial=na >= 2 and int(np.prod(N)) >= 2, classes=["fmax" if fmax else "nofmax", "N:%d" % int(np.prod(N))], info={"err": e1})
+    return Out(ok=True, nontrivial=na >= 2 and int(np.prod(N)) >= 2, classes=["fmax" if fmax else "nofmax", "N:%d" % int(np.prod(N)), "T:" + lay], info={"err": e1})
 
 
 SUBCHECKS = [
